@@ -233,18 +233,19 @@ structure GSt (F : Type) where
   cmd : BS F
   dist : BS F
 
-/-- `while j != 0 { … }`: the literals of one command -/
-def greedyLits {F : Type} (ops : FOps F) (ring : Bytes) (mask mode : Nat) (scm : List Nat) :
+/-- `while j != 0 { … }`: the literals of one command; `plain` = the variant of `LitBlocks` (fixed when the
+splitters are created) -/
+def greedyLits {F : Type} (ops : FOps F) (ring : Bytes) (mask mode : Nat) (scm : List Nat) (plain : Bool) :
     Nat → GSt F → Out (GSt F)
   | 0, s => .ok s
   | j + 1, s => do
     let literal ← getAt ring (s.pos &&& mask)
-    let lit ← (if s.lit.plain then addSymbol ops s.lit literal 0
+    let lit ← (if plain then addSymbol ops s.lit literal 0
       else do
         let context ← contextOf s.prev s.prev2 mode
         let sc ← getAt scm context
         addSymbol ops s.lit literal sc)
-    greedyLits ops ring mask mode scm j { s with lit := lit, prev2 := s.prev, prev := literal, pos := (s.pos + 1) % two64 }
+    greedyLits ops ring mask mode scm plain j { s with lit := lit, prev2 := s.prev, prev := literal, pos := (s.pos + 1) % two64 }
 
 /-- the tail of one iteration: `pos += copy_len()`, the two context bytes behind the copy, the distance symbol -/
 def greedyCopy {F : Type} (ops : FOps F) (ring : Bytes) (mask : Nat) (c : Cmd) (s : GSt F) : Out (GSt F) := do
@@ -258,18 +259,18 @@ def greedyCopy {F : Type} (ops : FOps F) (ring : Bytes) (mask : Nat) (c : Cmd) (
     else .ok { s with pos := pos, prev := prev, prev2 := prev2 }
   else .ok { s with pos := pos }
 
-def greedyCmd {F : Type} (ops : FOps F) (ring : Bytes) (mask mode : Nat) (scm : List Nat) (s : GSt F) (c : Cmd) :
-    Out (GSt F) := do
+def greedyCmd {F : Type} (ops : FOps F) (ring : Bytes) (mask mode : Nat) (scm : List Nat) (plain : Bool) (s : GSt F)
+    (c : Cmd) : Out (GSt F) := do
   let cmd ← addSymbol ops s.cmd c.cmdPrefix 0
-  let s ← greedyLits ops ring mask mode scm c.insertLen { s with cmd := cmd }
+  let s ← greedyLits ops ring mask mode scm plain c.insertLen { s with cmd := cmd }
   greedyCopy ops ring mask c s
 
-def greedyCmds {F : Type} (ops : FOps F) (ring : Bytes) (mask mode : Nat) (scm : List Nat) :
+def greedyCmds {F : Type} (ops : FOps F) (ring : Bytes) (mask mode : Nat) (scm : List Nat) (plain : Bool) :
     List Cmd → GSt F → Out (GSt F)
   | [], s => .ok s
   | c :: cs, s => do
-    let s ← greedyCmd ops ring mask mode scm s c
-    greedyCmds ops ring mask mode scm cs s
+    let s ← greedyCmd ops ring mask mode scm plain s c
+    greedyCmds ops ring mask mode scm plain cs s
 
 /-- the `BlockSplit` a finished splitter leaves, as the writer reads it (`types[..num_blocks]`, `lengths[..num_blocks]`) -/
 def BS.toSplit {F : Type} (s : BS F) : BSplit :=
@@ -297,7 +298,7 @@ def buildGreedy {F : Type} (ops : FOps F) (ring : Bytes) (pos mask prevByte prev
   let lit ← initBS ops plain numContexts 256 256 512 ops.thrLit numLiterals
   let cmd ← initBS ops true 1 704 704 1024 ops.thrCmd cmds.length
   let dist ← initBS ops true 1 544 64 512 ops.thrDist cmds.length
-  let s ← greedyCmds ops ring mask mode scm cmds ⟨pos, prevByte, prevByte2, lit, cmd, dist⟩
+  let s ← greedyCmds ops ring mask mode scm plain cmds ⟨pos, prevByte, prevByte2, lit, cmd, dist⟩
   let lit ← finishBlock ops s.lit true
   let cmd ← finishBlock ops s.cmd true
   let dist ← finishBlock ops s.dist true
